@@ -206,8 +206,16 @@ func judge(h *history, res *histResult) histReport {
 		switch {
 		case ok:
 			outcome = "ok"
-			good := len(le) == 1 && le[0].A == "completed" && sameInstant(le[0].B, o.RespStart) && sameInstant(le[0].C, o.RespEnd) &&
-				len(lc) == 1 && sameInstant(lc[0].A, o.CursorPre) && sameInstant(lc[0].B, o.RespEnd) && sameInstant(o.CursorPst, o.RespEnd)
+			recorded := len(le) == 1 && le[0].A == "completed" && sameInstant(le[0].B, o.RespStart) && sameInstant(le[0].C, o.RespEnd)
+			advanced := len(lc) == 1 && sameInstant(lc[0].A, o.CursorPre) && sameInstant(lc[0].B, o.RespEnd) && sameInstant(o.CursorPst, o.RespEnd)
+			// an explicit range that does not continue the chain may leave the cursor alone
+			// (whether it may MOVE it is judged below)
+			offChain := o.Op == opManualRange && recorded && o.CursorPre != "" && !sameInstant(o.CursorPre, le[0].B)
+			untouched := len(lc) == 0 && o.CursorPre == o.CursorPst
+			good := recorded && (advanced || (offChain && untouched))
+			if offChain && untouched {
+				cnt("explicit_range_left_cursor_alone", 1)
+			}
 			if !good {
 				add(sigRecord, map[string]any{"step": o})
 			}
@@ -250,7 +258,7 @@ func judge(h *history, res *histResult) histReport {
 	}
 
 	// --- chain of windows ---------------------------------------------------
-	var prevOK *execRec   // last completed execution
+	var prevOK *execRec       // last completed execution
 	var failedSince []execRec // failed default-range executions since prevOK
 	chainLen, breaks := 0, 0
 	var firstS, lastE int64
@@ -399,7 +407,14 @@ func judge(h *history, res *histResult) histReport {
 	}
 
 	// --- end-to-end conservation (histories whose executions are all chain members) --
-	if pure && chainLen > 0 && len(seen) == 0 {
+	// (label findings do not disturb it: conservation ignores labels)
+	otherFindings := 0
+	for sig := range seen {
+		if sig != sigLabelFrac && sig != sigLabel {
+			otherFindings++
+		}
+	}
+	if pure && chainLen > 0 && otherFindings == 0 {
 		var wantN, gotN int64
 		var wantSV, gotSV float64
 		for _, r := range h.Rows {
